@@ -319,10 +319,35 @@ func judgeReparse(r *mon.Rec, idx int) {
 		if !step("X again after the caller changed the names", x, rx.Names) {
 			return
 		}
+		// a copy of the value, as a caller keeps it (NTPSuboptionSrvFQDN{*fqdn}); later decodes into l leave it alone
+		kept := *l
+		keptNames := append([]string{}, kept.Labels...)
+		// bytes that are rejected half way (complete names first, then a pointer cut in two, a label that overruns the
+		// buffer, a name longer than 255 octets): the set is what it was
+		long := bytes.Repeat(append([]byte{63}, bytes.Repeat([]byte{'x'}, 63)...), 4)
+		for _, tail := range [][]byte{{0xC0}, {5, 'a'}, append(long, 0), {1, 'a', 0, 3, 'b'}} {
+			z := append(append([]byte{}, y...), tail...)
+			if reflabel.Decode(z).V != reflabel.Malformed {
+				continue
+			}
+			if err := l.FromBytes(z); err == nil {
+				break // what the library accepts beyond the reference is judged elsewhere
+			}
+			if !eqNames(l.Labels, rx.Names) || !bytes.Equal(l.ToBytes(), x) {
+				r.Violate("C19:failed-decode-changes-set", fmt.Sprintf("a decode that failed left the set holding %.100q (encoding %x); before it held %.100q", l.Labels, trunc(l.ToBytes()), rx.Names), rp)
+				return
+			}
+			r.Count("failed_decodes_into_a_parsed_set", 1)
+		}
 		if !step("then Y", y, ry.Names) {
 			return
 		}
-		step("then X once more", x, rx.Names)
+		if !step("then X once more", x, rx.Names) {
+			return
+		}
+		if !eqNames(kept.Labels, keptNames) || !bytes.Equal(kept.ToBytes(), x) {
+			r.Violate("C19:copy-changed-by-later-decode", fmt.Sprintf("a copy of the parsed set reads %.100q after later decodes into the original; it was %.100q", kept.Labels, keptNames), rp)
+		}
 	})
 	if pan {
 		r.Violate("C19:panic:"+mon.LibFrame(st), fmt.Sprint(val), rp)
